@@ -1,6 +1,10 @@
 """Per-profile tier budgets: number of seeded runs and wall-clock cap (budget exhaustion is not an error)."""
 
 TIERS = {
+    "last": {
+        "quick": {"runs": 480, "budget_s": 80, "min_budget": 150},
+        "thorough": {"runs": 20000, "budget_s": 540, "min_budget": 300},
+    },
     "finders": {
         "quick": {"runs": 480, "budget_s": 80, "min_budget": 150},
         "thorough": {"runs": 20000, "budget_s": 540, "min_budget": 300},
